@@ -252,6 +252,10 @@ OutViol(ev, o, ln) ==
                ELSE (IF rd.preamble = expP THEN <<>>
                      ELSE <<[l |-> ln, prop |-> "C09", what |-> "preamble returned by the library's reader differs from the preamble supplied",
                              got |-> rd.preamble, want |-> expP]>>)
+                    \* the same preamble read into a FilePreamble object that has read other files before
+                    \o (IF "preamble_reused" \notin DOMAIN rd \/ rd.preamble_reused = expP THEN <<>>
+                        ELSE <<[l |-> ln, prop |-> "C09", what |-> "preamble read into a FilePreamble object that was used for other files before differs from the preamble supplied",
+                                got |-> rd.preamble_reused, want |-> expP]>>)
                     \o (IF Len(rd.blocks) # nb
                         THEN <<[l |-> ln, prop |-> "C01,C13", what |-> "library reader returns a different number of blocks",
                                 got |-> Len(rd.blocks), want |-> nb]>>
